@@ -7,13 +7,20 @@
    (c) the DISCREPANCY hinted at by the property text: the density switches to the Normal density
        already at `freedom ≥ 1e8`, while cdf/sf switch only at `freedom = ∞`.  For every finite
        `freedom ≥ 1e8` the object therefore pairs a Normal pdf with a (non-Normal) Student cdf.
+   (d) entropy (after the source fix `shift = +ln σ`): the differential entropy of `μ + σX` is
+       `h(X) + ln σ` (`studentsT_entropy_loc_scale`, full(ℝ)), and with `ν = 1` it is the Cauchy
+       entropy `ln(4πσ)` (`studentsT1_entropy_eq_cauchy_rel`, premises `StudentEntropySpec`:
+       ψ(1) − ψ(½) = 2 ln 2, B(½,½) = π).
 -/
 import Statrs.Real.Simp
 import Statrs.Gen.D_normal
 import Statrs.Gen.D_students_t
+import Statrs.Gen.D_cauchy
+import Statrs.Spec.SFSpec_related
+import Statrs.Lemmas.Related
 import Mathlib.Tactic
 namespace Statrs.Props.C10
-open Statrs Statrs.Gen
+open Statrs Statrs.Gen Statrs.Lemmas.Related
 
 /-! ### (a) location–scale, carrier ℝ -/
 section locscale
@@ -71,8 +78,51 @@ theorem studentsT_mode_loc_scale (l s ν : ℝ) :
     StudentsT.mode ⟨l, s, ν⟩ = (StudentsT.mode (⟨0, 1, ν⟩ : StudentsT ℝ)).map (fun m => l + s * m) := by
   unfold StudentsT.mode; simp
 
+/-- entropy: `h(l + s·X) = h(X) + ln s` (the textbook shift; the fixed source adds `ln σ`).
+    Holds for every `l s ν` (no premise on the special functions: the digamma/beta arguments
+    coincide). -/
+theorem studentsT_entropy_loc_scale (l s ν : ℝ) :
+    StudentsT.entropy ⟨l, s, ν⟩
+      = (StudentsT.entropy (⟨0, 1, ν⟩ : StudentsT ℝ)).map (fun h => h + Real.log s) := by
+  unfold StudentsT.entropy
+  rfun_norm
+  simp only [Option.map_some, Real.log_one, add_zero]
+
 example : ∃ s : ℝ, 0 < s := ⟨1, one_pos⟩
 end locscale
+
+/-! ### (d) entropy of StudentsT(l, s, 1) is the Cauchy entropy -/
+
+/-- premises on the abstract special functions used by `StudentsT.entropy` at `ν = 1`:
+    `ψ(1) − ψ(½) = 2 ln 2` (ψ(1) = −γ, ψ(½) = −γ − 2 ln 2) and `B(½, ½) = Γ(½)² / Γ(1) = π`. -/
+structure StudentEntropySpec [SF ℝ] : Prop where
+  digamma_one_sub_half : SF.digamma (1 : ℝ) - SF.digamma ((1 : ℝ) / 2) = 2 * Real.log 2
+  beta_half_half : SF.beta ((1 : ℝ) / 2) ((1 : ℝ) / 2) = Real.pi
+
+/-- `StudentsT(l, s, 1).entropy = Cauchy(l, s).entropy = ln(4πs)` for every scale `s > 0`.
+    (Before the source fix the model returned `ln(4π) − ln s`, equal to the Cauchy value only at
+    `s = 1`.) -/
+theorem studentsT1_entropy_eq_cauchy_rel [SF ℝ] (P : StudentEntropySpec) (l s : ℝ) (hs : 0 < s) :
+    StudentsT.entropy ⟨l, s, 1⟩ = Cauchy.entropy ⟨l, s⟩ := by
+  unfold StudentsT.entropy Cauchy.entropy
+  rfun_norm; lit_norm
+  simp only [Option.some.injEq]
+  rw [show ((1 : ℝ) + 1) / 2 = 1 by norm_num, P.digamma_one_sub_half, P.beta_half_half,
+    Real.sqrt_one, one_mul, one_mul,
+    Real.log_mul (mul_pos (by norm_num) Real.pi_pos).ne' hs.ne',
+    Real.log_mul (by norm_num) Real.pi_pos.ne',
+    show (4 : ℝ) = 2 ^ (2 : ℕ) by norm_num, Real.log_pow]
+  push_cast; ring
+
+/-- the premises are satisfiable -/
+example : ∃ (_ : SF ℝ) (_ : StudentEntropySpec) (s : ℝ), 0 < s := by
+  let I : SF ℝ := { Spec.witnessSF with
+    digamma := fun x => if x = 1 then 2 * Real.log 2 else 0
+    beta := fun _ _ => Real.pi }
+  refine ⟨I, ⟨?_, rfl⟩, 1, one_pos⟩
+  show (if (1 : ℝ) = 1 then 2 * Real.log 2 else 0) - (if (1 : ℝ) / 2 = 1 then 2 * Real.log 2 else 0)
+    = 2 * Real.log 2
+  norm_num
 
 /-! ### (b) `dof = ∞` is the Normal, for every carrier -/
 section generic
@@ -124,7 +174,7 @@ theorem studentsT_entropy_no_inf_branch [SF α] (d : StudentsT α) :
       some (((((d.f_freedom + (1.0 : α)) / (2.0 : α)) *
           ((SF.digamma ((d.f_freedom + (1.0 : α)) / (2.0 : α))) - (SF.digamma (d.f_freedom / (2.0 : α)))))
         + (RFun.ln ((RFun.sqrt d.f_freedom) * (SF.beta (d.f_freedom / (2.0 : α)) (0.5 : α)))))
-        + (-(RFun.ln d.f_scale))) := rfl
+        + (RFun.ln d.f_scale)) := rfl
 
 /-! ### (c) the switch-point discrepancy -/
 
